@@ -12,14 +12,17 @@
 #ifndef VERIF_REALLOC_CAP
 #define VERIF_REALLOC_CAP 64
 #endif
+/* every realloc'ed object in the units that use this model is an array of POINTERS (qb_array bin table,
+ * timerlist heap): the model object is typed void*[] so that loads/stores stay word-typed (a char[] object
+ * turns every pointer access into byte_extract/byte_update and blows the formula up ~100x) */
 static void *verif_realloc(void *old, size_t n)
 {
 	PROP(n <= VERIF_REALLOC_CAP, "env: realloc request within model capacity");
-	unsigned char *p = malloc(VERIF_REALLOC_CAP);
+	void **p = malloc(sizeof(void *) * (VERIF_REALLOC_CAP / sizeof(void *)));
 	ASSUME(p != NULL);
 	if (old != NULL) {
 		/* every object this model hands out has VERIF_REALLOC_CAP bytes */
-		for (size_t i = 0; i < VERIF_REALLOC_CAP / sizeof(void *); i++) ((void **)p)[i] = ((void **)old)[i];
+		for (size_t i = 0; i < VERIF_REALLOC_CAP / sizeof(void *); i++) p[i] = ((void **)old)[i];
 		free(old);
 	}
 	return p;
